@@ -37,7 +37,7 @@ func configs(tier string) []config {
 
 func plan(tier string) seqPlan {
 	if tier == "thorough" {
-		return seqPlan{Depth: 8, SweepDepth: 2, StreakMax: 70, StreakSuffix: 4, MaxWall: 1500}
+		return seqPlan{Depth: 10, SweepDepth: 2, StreakMax: 70, StreakSuffix: 4, MaxWall: 480}
 	}
 	return seqPlan{Depth: 7, SweepDepth: 2, StreakMax: 70, StreakSuffix: 3, MaxWall: 45}
 }
@@ -55,7 +55,7 @@ func main() {
 	// part 2 bounds: preemptions P, timer deviations F, K frontier sub-shards per variant
 	P, F, K, concWall := 1, 1, 2, 40*time.Second
 	if a.Tier == "thorough" {
-		P, F, K, concWall = 2, 1, 8, 20*time.Minute
+		P, F, K, concWall = 2, 1, 8, 8*time.Minute
 	}
 	if v, ok := a.Extra["p"]; ok {
 		fmt.Sscanf(v, "%d", &P)
@@ -69,7 +69,11 @@ func main() {
 			hkit.EmitShardResult(runSeq(cs[a.Shard], p))
 		} else {
 			i := a.Shard - len(cs)
-			hkit.EmitShardResult(vsched.Explore(cscenario(cvs[i/K]), vsched.Bounds{P: P, F: F, MaxWall: concWall, Shard: i % K, Of: K}))
+			v := cvs[i/K]
+			if v.MaxP > 0 {
+				P = min(P, v.MaxP)
+			}
+			hkit.EmitShardResult(vsched.Explore(cscenario(v), vsched.Bounds{P: P, F: F, MaxWall: concWall, Shard: i % K, Of: K}))
 		}
 		return
 	}
@@ -120,7 +124,7 @@ func main() {
 		hkit.ShardResult(outs[len(cs)+i], &r)
 		v := cvs[i/K]
 		cper = append(cper, map[string]any{"scenario": r.Scenario, "config": v.Config.String(), "waiter_start": v.Start, "waiter_acquires": v.Acquires, "adjuster": v.Script, "executions": r.Executions,
-			"pruned": r.Pruned, "states": r.States, "transitions": r.Transitions, "distinct_outcomes": len(r.Outcomes), "ends": r.Ends, "exhaustive": r.Exhaustive, "cap_hit": r.CapHit, "wall_s": r.WallS})
+			"preemption_bound": r.P, "pruned": r.Pruned, "states": r.States, "transitions": r.Transitions, "distinct_outcomes": len(r.Outcomes), "ends": r.Ends, "exhaustive": r.Exhaustive, "cap_hit": r.CapHit, "wall_s": r.WallS})
 		for _, vio := range r.Violations {
 			if cseen[vio.Sig] {
 				continue
